@@ -589,6 +589,8 @@ type lifeResult struct {
 	shutErr  error
 	world    *World
 	buildErr error
+	// gen > 0: only the components and events of that generation belong to this lifetime (second lifetime in a world)
+	gen int
 }
 
 func runLifetime(r *simkit.Run, t *topo, failKey, failWhat string) *lifeResult {
@@ -780,7 +782,9 @@ func checkLifetimeSet(r *simkit.Run, t *topo, res *lifeResult, fails map[string]
 	res.world.mu.Lock()
 	comps := make([]*stubBase, 0, len(res.world.comps))
 	for _, b := range res.world.comps {
-		comps = append(comps, b)
+		if res.gen == 0 || b.gen == res.gen {
+			comps = append(comps, b)
+		}
 	}
 	res.world.mu.Unlock()
 	sort.Slice(comps, func(i, j int) bool { return comps[i].key < comps[j].key })
@@ -892,7 +896,7 @@ func runC10(r *simkit.Run) {
 		r.Logf("no valid topology drawn")
 		return
 	}
-	mode := tp.Weighted(1, 3, 2) // 0: one failure position from the tape (replay target); 1: enumerate all positions; 2: a set of failures
+	mode := tp.Weighted(1, 3, 2, 1) // 0: one failure position from the tape (replay target); 1: enumerate all positions; 2: a set of failures
 	base := runLifetime(r, &t, "", "")
 	if base.buildErr != nil {
 		r.Failf("build", "valid-rejected", "a valid configuration was rejected: %v", base.buildErr)
@@ -940,6 +944,72 @@ func runC10(r *simkit.Run) {
 	}
 	if mode == 0 {
 		run(all[tp.Draw(len(all))])
+		return
+	}
+	if mode == 3 {
+		// Two service lifetimes in ONE world: the factories of the second service share what factories keep between
+		// services (the map of components shared across signals). The first lifetime has a tape-drawn set of failures,
+		// the second none: its own components must be created, started once and shut down once like in any lifetime.
+		fails := map[string]string{}
+		n := tp.Range(0, 3)
+		for i := 0; i < n; i++ {
+			fails[keys[tp.Draw(len(keys))]] = []string{"shutdown", "shutdown", "start"}[tp.Draw(3)]
+		}
+		w := NewWorld(r)
+		for k, what := range fails {
+			pl := w.plan(k)
+			pl.FailStart = what == "start"
+			pl.FailShutdown = what == "shutdown"
+		}
+		srv1, err := service.New(context.Background(), w.serviceSettings(&t), t.serviceConfig())
+		if err != nil {
+			r.Failf("build", "valid-rejected", "a valid configuration was rejected: %v", err)
+			return
+		}
+		_ = srv1.Start(context.Background())
+		_ = srv1.Shutdown(context.Background())
+		// second lifetime, fault-free
+		for k := range fails {
+			pl := w.plan(k)
+			pl.FailStart, pl.FailShutdown = false, false
+		}
+		w.mu.Lock()
+		w.Gen = 2
+		first := len(w.log)
+		w.mu.Unlock()
+		res := &lifeResult{world: w, gen: 2}
+		srv2, err := service.New(context.Background(), w.serviceSettings(&t), t.serviceConfig())
+		if err != nil {
+			r.Failf("build", "second-lifetime-rejected", "the same valid configuration was rejected when a second service was built from the same factories: %v", err)
+			return
+		}
+		res.startErr = srv2.Start(context.Background())
+		res.shutErr = srv2.Shutdown(context.Background())
+		for _, e := range w.Log()[first:] {
+			e.Seq -= first
+			res.log = append(res.log, e)
+		}
+		r.Count("fault.second_lifetime_from_the_same_factories")
+		r.Nontrivial = true
+		r.Events += 2
+		checkLifetimeSet(r, &t, res, nil)
+		// every component of the fault-free reference lifetime exists again in the second lifetime
+		started2 := map[string]bool{}
+		for _, e := range res.log {
+			if e.Kind == "start" {
+				started2[e.Comp] = true
+			}
+		}
+		for _, k := range keys {
+			if !started2[k] {
+				r.Failf("once", "second-lifetime/not-started/"+kindOfKey(k), "%s is started in a first service lifetime but was never started in the second lifetime built from the same factories (failures in the first lifetime: %v)", k, fails)
+			}
+		}
+		r.AddCase(fmt.Sprintf("%v|two-lifetimes|%v", t, fails), true)
+		if r.Failed() {
+			r.Logf("first-lifetime failures: %v", fails)
+			logLifetime(r, res)
+		}
 		return
 	}
 	if mode == 2 {
@@ -993,7 +1063,7 @@ func logLifetime(r *simkit.Run, res *lifeResult) {
 
 var HarnessC10 = simkit.Harness{
 	Prop: "C10", Name: "svc/c10", Run: runC10, StepTimeout: 20e9, Real: svcReal, Stub: svcStub, HashInsensitive: true,
-	Rule: "one run = one generated valid service configuration (as C09, plus 0-3 extensions with dependency declarations); the service is built, started and shut down fault-free, then once for EVERY single failure position (each started component x {Start fails, Shutdown fails}), or (1 run in 3) once with a tape-drawn SET of failures (at most one Start failure plus 1-4 Shutdown failures, every failed Shutdown must appear in the aggregated error); the global event log of instrumented components is checked against the partial order implied by the configuration (extensions first/last and after their dependencies, consumers before producers, reverse on shutdown), exactly-once start/shutdown per created instance (shared receivers once), error propagation and clean-up; evaluations = service lifetimes; distinct = distinct (topology, failure position); non-trivial = a failure was injected",
+	Rule: "one run = one generated valid service configuration (as C09, plus 0-3 extensions with dependency declarations); the service is built, started and shut down fault-free, then once for EVERY single failure position (each started component x {Start fails, Shutdown fails}), or (1 run in 3) once with a tape-drawn SET of failures (at most one Start failure plus 1-4 Shutdown failures, every failed Shutdown must appear in the aggregated error), or (1 run in 7) two lifetimes in one world - the second, fault-free service is built from factories that share their component maps with the first, which had failures; the global event log of instrumented components is checked against the partial order implied by the configuration (extensions first/last and after their dependencies, consumers before producers, reverse on shutdown), exactly-once start/shutdown per created instance (shared receivers once), error propagation and clean-up; evaluations = service lifetimes; distinct = distinct (topology, failure position); non-trivial = a failure was injected",
 }
 
 func sortedKeysOf[V any](m map[string]V) []string {
